@@ -569,6 +569,20 @@ func c14Families(p *chk.Prog, r *chk.Report) {
 	for _, c := range []struct{ fam, m, flag string }{{"IPv4", "ipV4Prefixes", "HasV4Advertisements"}, {"IPv6", "ipV6Prefixes", "HasV6Advertisements"}} {
 		caseG := g.GPat(true, "F == ipfamily."+c.fam, chk.H("F", fam))
 		ins := g.Find(f.IsAssignPat("R."+c.m+"[P]", "P"))
+		if len(ins) == 0 {
+			// the prefixes kept as a set: R.m.Insert(P) (or R.m[P] = struct{}{} / true)
+			setIns := isSetInsert(f)
+			cm := c.m
+			ins = g.Find(func(n ast.Node) bool {
+				if es, ok := n.(*ast.ExprStmt); ok && f.MatchNew("R."+cm+".Insert(P)", es.X) != nil {
+					return true
+				}
+				if as, ok := n.(*ast.AssignStmt); ok && setIns(n) {
+					return f.MatchNew("R."+cm+"[P]", as.Lhs[0]) != nil
+				}
+				return false
+			})
+		}
 		flg := g.Find(f.IsAssignPat("N."+c.flag, "true"))
 		ok := len(ins) == 1 && len(flg) == 1 && g.Dominated(ins[0], caseG) && g.Dominated(flg[0], caseG)
 		if ok {
@@ -622,6 +636,26 @@ func c14Validate(p *chk.Prog, r *chk.Report, pkg string) {
 			}
 		}
 	}
+	copyForm := false
+	if !okStore {
+		// the whole argument list validated first, then stored as a copy: append([]T{}, advs...) / slices.Clone(advs)
+		for _, s := range stores {
+			rhs := s.Node.(*ast.AssignStmt).Rhs[0]
+			isCopy := f.MatchWith("append(E, A...)", rhs, chk.H("A", advs), chk.H("E", func(e ast.Expr) bool {
+				cl, isLit := ast.Unparen(e).(*ast.CompositeLit)
+				return isLit && len(cl.Elts) == 0 || f.IsNilLit(e) || isEmptyMake(f, e)
+			})) != nil || f.MatchWith("slices.Clone(A)", rhs, chk.H("A", advs)) != nil
+			if !isCopy {
+				continue
+			}
+			for _, rs := range f.RangeLoops(advs) {
+				a := rangeVal(f, rs)
+				if forallBefore(f, g, rs, g.GErrNil(true, "validate(A)", chk.H("A", a)), s) == "" {
+					okStore, copyForm = true, true
+				}
+			}
+		}
+	}
 	x.Check(pkg+":Set:stores-validated-complete-list", f.Pos(), okStore, "", "Set can store advertisements that did not pass validate, or not all of them")
 	// rollback
 	okRB := false
@@ -639,7 +673,7 @@ func c14Validate(p *chk.Prog, r *chk.Report, pkg string) {
 	}
 	// success means stored and generated: a nil return is reached only behind the store of the new list and a successful
 	// generation - or behind a comparison of the whole old and new lists (nothing to do)
-	if newList != nil {
+	if newList != nil || copyForm {
 		isStore := func(n ast.Node) bool {
 			for _, s := range stores {
 				if n == s.Top {
@@ -652,6 +686,9 @@ func c14Validate(p *chk.Prog, r *chk.Report, pkg string) {
 			return f.MatchWith("RECV.advertised", e, chk.H("RECV", isRecv(f))) != nil || definedBy(g, "RECV.advertised")(e)
 		}
 		newL := f.IsObj(newList)
+		if copyForm {
+			newL = advs
+		}
 		unchanged := chk.GSame(g.GPat(true, "reflect.DeepEqual(O, N)", chk.H("O", oldL), chk.H("N", newL)), g.GPat(true, "reflect.DeepEqual(N, O)", chk.H("O", oldL), chk.H("N", newL)),
 			g.GPat(true, "slices.EqualFunc(O, N, F)", chk.H("O", oldL), chk.H("N", newL)), g.GPat(true, "slices.EqualFunc(N, O, F)", chk.H("O", oldL), chk.H("N", newL)))
 		done := chk.GOr(chk.GAnd(chk.GEvent(isStore), g.GErrNil(true, gen)), unchanged)
